@@ -5,7 +5,7 @@
 here=$(cd "$(dirname "$0")/.." && pwd)
 export CUTPLACE_REPO=${CUTPLACE_REPO:-/tmp/cp_seed}
 rc=0
-for spec in "H1_rowcount_from_location:C04 C06 C07 C20" "H2_range_validate_any:C01 C03" "H3_message_text:C03 C04 C10" \
+for spec in "H2_range_validate_any:C01 C03" "H3_message_text:C03 C04 C10" \
             "H4_removesuffix:C16 C17" "H5_validate_row_zip:C04 C05 C20" "H6_sql_swapped_operands:C19" "H7_excel_unreadable_as_data_error:C18 C16 C10"; do
   h=${spec%%:*}
   for p in ${spec##*:}; do
